@@ -781,6 +781,29 @@ void op_create_logger(World& W)
       return;
     }
   }
+  // a quarter of the creations copy the configuration of a live logger (create_or_get_logger(name, source_logger)):
+  // the new logger must write to the source's sinks with the source's pattern
+  {
+    std::vector<int> live;
+    for (size_t k = 0; k < W.loggers.size(); ++k) if (W.loggers[k].valid && !W.loggers[k].removed) live.push_back(static_cast<int>(k));
+    if (!live.empty() && c.pick(4) == 3)
+    {
+      LoggerInfo const& S = W.loggers[live[c.pick(static_cast<uint32_t>(live.size()))]];
+      LoggerInfo L;
+      L.name = name;
+      L.sinks = S.sinks;
+      L.pat = S.pat;
+      bool recreated = false;
+      for (auto const& l : W.loggers) if (l.name == name) recreated = true;
+      L.ptr = SFrontend::create_or_get_logger(name, S.ptr);
+      std::string src = S.name;
+      W.loggers.push_back(L);
+      if (recreated) W.lbl_recreated = true;
+      W.r->label("logger_created_from_source_logger");
+      W.log_op("Create(" + name + "=L" + std::to_string(W.loggers.size() - 1) + ",like " + src + ")");
+      return;
+    }
+  }
   // sinks: a subset of sinks the user still references, or a fresh one
   std::vector<int> chosen;
   for (size_t k = 0; k < W.sinks.size(); ++k)
